@@ -230,6 +230,12 @@ def run(chk, repo):
     from rules.shared import slice_keeps_own_fields
     chk.clauses.append('C01.p a slice of a sequence record with coordinates keeps every field of its own constructor (orf, selenocysteine; locations recomputed): transcript prefixes built for fusions keep their Sec positions')
     slice_keeps_own_fields(chk, repo, 'C01.p')
+    from rules.shared import truthy_numeric
+    chk.clauses.append('C01.q (shared R-TRUTHY) no numeric parameter / attribute of the peptide graph nodes (cleavage pattern positions, indices: 0 is a value) is tested by truthiness where the reference tests `is None`')
+    truthy_numeric(chk, repo, 'C01.q', ['svgraph.PVGNode', 'svgraph.PeptideVariantGraph'])
+    from rules.C10 import rule_cleave
+    chk.clauses.append('C01.r (shared with C10.e / C04.h / C05.l) the canonical pool that variant peptides are filtered against holds exactly the digestion products of the proteome: the Met-removed form only for the N-terminal window')
+    rule_cleave(chk, repo, rid='C01.r')
 
 
 def skip_guard_contract(chk, repo, rid):
